@@ -809,12 +809,33 @@ impl Sim {
         };
         app.commit(storage.clone()).await.expect("lab commit");
         let committed = dump_state(&storage.latest_snapshot()).await;
-        self.log.ev(json!({"kind": "lab_end", "hist": hist, "height": height, "end_diff": diff_of(&cur, &end),
+        let stored_validators = stored_validators_json(&storage.latest_snapshot()).await;
+        self.log.ev(json!({"kind": "lab_end", "hist": hist, "height": height, "stored_validators": stored_validators, "end_diff": diff_of(&cur, &end),
             "commit_diff": diff_of(&strip_ephemeral(&end), &committed),
             "app_hash": vlog::hex(app_hash.as_bytes()), "state_digest": digest_of(&committed),
             "validator_updates": validator_updates_json(&validator_updates)}));
         self.last_lab_dump = committed;
     }
+}
+
+/// What the application itself stores as the validator set (both storage formats) and the stored count.
+async fn stored_validators_json<S: StateRead>(state: &S) -> serde_json::Value {
+    use crate::authority::StateReadExt as _;
+    use futures::TryStreamExt as _;
+    let vj = |v: &astria_core::protocol::transaction::v1::action::ValidatorUpdate| json!({"vk": vlog::hex(v.verification_key.as_ref()), "power": v.power, "name": v.name.to_string()});
+    let post: Vec<serde_json::Value> = match state.get_validators().try_collect::<Vec<_>>().await {
+        Ok(v) => v.iter().map(vj).collect(),
+        Err(e) => vec![json!({"error": short(&format!("{e:#}"))})],
+    };
+    let pre = match state.pre_aspen_get_validator_set().await {
+        Ok(set) => json!(set.updates().map(vj).collect::<Vec<_>>()),
+        Err(_) => json!(null),
+    };
+    let count = match state.get_validator_count().await {
+        Ok(c) => json!(c),
+        Err(_) => json!(null),
+    };
+    json!({"post_aspen_entries": post, "pre_aspen_set": pre, "count": count})
 }
 
 fn strip_ephemeral(d: &BTreeMap<String, String>) -> BTreeMap<String, String> {
